@@ -29,9 +29,15 @@ type cfg struct {
 	Cancel   bool
 	Elapsed  time.Duration
 	MaxReq   int
+	// Always: every attempt meets the same fault until the backend gives up (1: 503, 2: transport error,
+	// 3: 429 with Retry-After) - the end of the retry window must still complete the request, with an error
+	Always int
 }
 
 func (c cfg) String() string {
+	if c.Always != 0 {
+		return fmt.Sprintf("%s-s%d-b%d-q%d-always%d-el%v-r%d", c.Kind, c.Series, c.Batch, c.Requests, c.Always, c.Elapsed, c.MaxReq)
+	}
 	return fmt.Sprintf("%s-s%d-b%d-q%d-f%d-c%v-el%v-r%d", c.Kind, c.Series, c.Batch, c.Requests, c.Failures, c.Cancel, c.Elapsed, c.MaxReq)
 }
 
@@ -95,7 +101,20 @@ func body(c cfg, r *run) func(*vsched.Exec) {
 		}
 		r.b = b
 		b.Env.RT.Decide = func(q *bk.Request) bk.HTTPAnswer {
-			o := r.fault(3, "http")
+			o := 0
+			if c.Always != 0 {
+				o = 1
+				if c.Always == 2 {
+					o = 2
+				}
+				r.faults = append(r.faults, fmt.Sprintf("http=%d", c.Always))
+				if c.Always == 3 {
+					r.bodyFinal[string(q.Body)] = o
+					return bk.HTTPAnswer{Status: 429, Header: http.Header{"Retry-After": []string{"1"}}}
+				}
+			} else {
+				o = r.fault(3, "http")
+			}
 			r.bodyFinal[string(q.Body)] = o
 			switch o {
 			case 1:
@@ -153,7 +172,11 @@ func body(c cfg, r *run) func(*vsched.Exec) {
 			})
 		}
 		// time passes only when nothing else can move: retry timers, the sender's reconnect timer
-		for step := 0; step < 14; step++ {
+		steps := 14
+		if c.Always != 0 {
+			steps = 60
+		}
+		for step := 0; step < steps; step++ {
 			vsched.Quiesce("idle")
 			if len(r.cbs) >= c.Requests || mock.Len() == 0 {
 				break
@@ -265,6 +288,11 @@ func configs() []cfg {
 		if vrt.Thorough() {
 			cs = append(cs, cfg{Kind: k, Series: 3, Batch: 1, Requests: 1, Failures: 2, Cancel: true, Elapsed: 3 * time.Second, MaxReq: 2})
 			cs = append(cs, cfg{Kind: k, Series: 1, Batch: 1, Requests: 2, Failures: 6, Cancel: false, Elapsed: 3 * time.Second, MaxReq: 1})
+		}
+	}
+	for _, k := range http {
+		for a := 1; a <= 3; a++ {
+			cs = append(cs, cfg{Kind: k, Series: 1, Batch: 2, Requests: 1, Always: a, Elapsed: 3 * time.Second, MaxReq: 1})
 		}
 	}
 	for _, k := range sock {
